@@ -37,8 +37,11 @@ pub fn read_input_file_and_xsd_files_at_path(current_file: &Path) -> WriterResul
                 .ok_or(WriterError::PathNotFound)?
                 .to_str()
                 .ok_or(WriterError::PathNotFound)?;
-            let xml = std::fs::read_to_string(&path)?;
-            files.add(file_name, xml);
+            // a sibling that cannot be read as text cannot be one of the imported schemas; it must not stop
+            // the generation (if it is imported after all, the import is reported as not found)
+            if let Ok(xml) = std::fs::read_to_string(&path) {
+                files.add(file_name, xml);
+            }
         }
     }
 
